@@ -50,7 +50,7 @@ CHECKS = {
    note="Trusted: obs/digest through the public accessors; yields at loop heads of a scratch copy (plus, in the thorough tier, before every indexed/selector/pointer assignment), sync.Mutex/RWMutex/Once replaced there by cooperative equivalents (the code under test is otherwise the real qframe); single-client runs are ordinary model-based stateful testing and are counted separately in the evidence."),
  "C11": dict(engine="family+race", level="exploration", design="§3 C11, §2.3, §2.4",
    technique="deterministic simulation of concurrent callers (seeded cooperative scheduler over injected yields; oracle: result under the schedule == result alone) + the same seeded programs on free goroutines under the Go race detector",
-   text="Two phases over the same generated world. (1) Deterministic: 2..4 simulated clients, interleaving chosen by PCT/random-walk at loop granularity; every operation's canonical result must equal (a) its result when re-run alone and (b) its result on fresh copies of its operands rebuilt from their observations (the sequential specification of an immutable value is stateless, so this is the linearizability check; (b) makes 'alone' independent of whatever earlier operations left behind on shared storage), no member of the family may change, and a client whose operation consumes far more scheduling points than the same operation needs alone, or that deadlocks on a lock, is a liveness violation. Programs include 'storms' (all clients run one operation on one receiver), sibling derivations, failing writers, and occasionally base frames of 1024..2600 rows. (2) Race: the same programs on 2..8 free-running goroutines against an uninstrumented -race build; any report of the race detector, any panic and any result difference is a violation. Phase 2 observes real executions: stated, and justified in DESIGN.md §2.4 (scheduler hand-offs are happens-before edges that would blind the detector).",
+   text="Three phases, the first two over the same generated world. (1) Deterministic: 2..4 simulated clients, interleaving chosen by PCT/random-walk at loop granularity; every operation's canonical result must equal (a) its result when re-run alone and (b) its result on fresh copies of its operands rebuilt from their observations (the sequential specification of an immutable value is stateless, so this is the linearizability check; (b) makes 'alone' independent of whatever earlier operations left behind on shared storage), no member of the family may change, and a client whose operation consumes far more scheduling points than the same operation needs alone, or that deadlocks on a lock, is a liveness violation. Programs include 'storms' (all clients run one operation on one receiver), sibling derivations, failing writers, and occasionally base frames of 1024..2600 rows. (2) Race: the same programs on 2..8 free-running goroutines against an uninstrumented -race build; any report of the race detector, any panic and any result difference is a violation. Phase 2 observes real executions: stated, and justified in DESIGN.md §2.4 (scheduler hand-offs are happens-before edges that would blind the detector). (3) First use: the race binary re-executes itself once per trial so that several goroutines running one operation are the first thing that happens to the library in a fresh process (lazily initialised or grown package-level state). Goroutines that qframe itself starts are rewritten into simulated tasks in phase 1 (go statements with function literals, sync.WaitGroup); concurrency the injector cannot own switches phase 1 to operation granularity with a NOTE. Worlds reach 8193..33500 rows now and then in phases 1 and 2.",
    note="Trusted: the Go race detector (no false positives); the harness shares nothing between goroutines but the qframe values and a start channel. A race that needs a third party the programs never create (user code mutating an eval.Context concurrently) is misuse and out of scope."),
 }
 
